@@ -258,3 +258,27 @@ def c01_history(ctx, dim, change):
     for t in th:
         ctx.assume(and_(t > 0, t < 1))
     ctx.ensure("voxel(coordinate(v + theta)) == v for the current metadata", eq(list(cs.voxel(cs.coordinate(np.array([v[m] + th[m] for m in range(dim)])))), list(v)))
+
+
+@ob("C01.dtypes", kind="B", cases=product_cases(dim=(1, 2, 3), dtype=("uint8", "uint16", "uint32", "uint64", "int8", "int32", "float32")), funcs=FUNCS, samples=(3, 8), tol=1e-6,
+    cite="one voxel step along a matrix axis moves the coordinate by exactly one voxel size ... for single points, batches ...",
+    note="bounded: the numeric dtype of a voxel / coordinate array is invisible to the symbolic model (object arrays).  Voxel indices handed over as unsigned / narrow integers or float32 "
+         "must map like the same indices as int64 / float64 (after seed C01_g: negation of an unsigned index column wraps around)")
+def c01_dtypes(ctx, dim, dtype):
+    n = [ctx.int(f"n{k}", lo=2, hi=9) for k in range(dim)]
+    d = [ctx.real(f"d{k}", pos=True, sample=(0.5, 4.0)) for k in range(dim)]
+    o = [ctx.real(f"o{k}", sample=(-3.0, 3.0)) for k in range(dim)]
+    img = darsia.Image(np.zeros(n), space_dim=dim, scalar=True, dimensions=list(d), origin=list(o))
+    cs = img.coordinatesystem
+    lo = 0 if dtype.startswith("u") else -3
+    V = np.array([[ctx.int(f"v{r}_{m}", lo=lo, hi=n[m] + 2) for m in range(dim)] for r in range(3)])
+    ref = np.asarray(cs.coordinate(V.astype(np.int64)), dtype=float)
+    got = np.asarray(cs.coordinate(V.astype(dtype)), dtype=float)
+    ctx.ensure(f"coordinate(voxels as {dtype}) == coordinate(the same voxels as int64)", eq(got, ref))
+    ctx.ensure(f"single point as {dtype}", eq(np.asarray(cs.coordinate(V[0].astype(dtype)), dtype=float), ref[0]))
+    refv = np.asarray(cs.coordinate_vector(V.astype(np.int64)), dtype=float)
+    ctx.ensure(f"coordinate_vector(voxels as {dtype}) == coordinate_vector(int64)", eq(np.asarray(cs.coordinate_vector(V.astype(dtype)), dtype=float), refv))
+    if dtype == "float32":
+        # voxel centres as float32 coordinates still fall into their voxel (well inside: float32 rounding is far below half a voxel here)
+        Vc = np.asarray(cs.voxel((np.asarray(cs.coordinate(darsia.VoxelCenterArray(V + 0.5)), dtype=float)).astype(np.float32)), dtype=int)
+        ctx.ensure("voxel(centre coordinates as float32) == the voxel", bool(np.array_equal(Vc, V)))
